@@ -270,3 +270,12 @@ Theorem lts_is_discriminating :
   check_removed (number lts_copy) = fail "removed_never_invoked:after_removal_returned".
 Proof. exact lts_examples. Qed.
 Print Assumptions lts_is_discriminating.
+
+(* ---- PURITY lines (independence probe harness/c17_purity.cc: real threads under ThreadSanitizer, each collecting its own
+   MeterProvider; one provider collected while a registry of it is mutated).  The model treats distinct providers / registries as
+   independent values, so it predicts PURE, which the probe's SPEC accepts; every other observation of the probe names a failed
+   clause.  The probe is a run-time check of that modelling assumption (no hidden state shared across registries), not a theorem. *)
+Theorem purity_model_meets_spec : forall l s th r i,
+  l = [tag "PURITY"; TZ s; TZ th; TZ r; TZ i] -> run_spec l (run_model l) = [].
+Proof. intros l s th r i ->. reflexivity. Qed.
+Print Assumptions purity_model_meets_spec.
